@@ -1115,3 +1115,9 @@ Section Refinement.
   Lemma cinv_empty : forall cell (inv : fdesc -> cell -> Prop), CInv cell inv md [].
   Proof. intros. split; cbn; auto. intros ? ? ? []. Qed.
 End Refinement.
+
+(* finding FWE2 in the model of the code *)
+Theorem fwe2_witness : exists (fd : fdesc) (c : ocell), opq_has fd c = true /\ opq_which_synthetic fd c = false.
+Proof.
+  exists (mkF 1 (KMsg O) COpt None false false false), (OCMsgPtr (Some msg_empty)). split; reflexivity.
+Qed.
